@@ -21,7 +21,7 @@ func vReachableMajority(r *Raft, l *leader) bool {
 	return reach >= voters/2+1
 }
 
-//verif:check C17 stubs=env,valuefile,abslog reach=reachable,unreachable-wait,unreachable-stepdown,timeout-stepdown,timeout-stays,end desc="leader.checkQuorum via checkReplUpdates(noContact) and onTimeout: after a reachability report, a leader reaching a majority of the voters stays leader with the quorum timer stopped; one that does not either steps down at once (quorumWait 0: state Follower, leader 0) or stays leader with the quorum timer armed; when that timer fires it steps down iff a majority is still unreachable" bounds="n=2..3 nodes, symbolic voter flags and per-follower reachability, quorumWait zero or positive, quorum timer armed or not; one report then one timer expiry"
+//verif:check C17,C11 stubs=env,valuefile,abslog reach=reachable,unreachable-wait,unreachable-stepdown,timeout-stepdown,timeout-stays,end desc="leader.checkQuorum via checkReplUpdates(noContact) and onTimeout: after a reachability report, a leader reaching a majority of the voters stays leader with the quorum timer stopped; one that does not either steps down at once (quorumWait 0: state Follower, leader 0) or stays leader with the quorum timer armed; when that timer fires it steps down iff a majority is still unreachable" bounds="n=2..3 nodes, symbolic voter flags and per-follower reachability, quorumWait zero or positive, quorum timer armed or not; one report then one timer expiry"
 func VH_C17_checkQuorum() {
 	n := 2 + vChoice(2)
 	r, l, _ := vMkLeader(n, 2, true)
